@@ -116,7 +116,7 @@ class C20(Prop):
     harness = "h_simd.c"
     harness_flags = ["-msse4.1"]      # the AVX2 / AVX-512 parts of the harness are `#pragma GCC target` regions
     theorems = ["EaselModel.Props.C20." + t for t in (
-        "sse_hmax_epu8", "sse_hmax_epi8", "sse_hmax_epi16", "avx_hmax_epu8", "avx_hmax_epi8", "avx_hmax_epi16", "avx512_hmax_epu8", "avx512_hmax_epi8", "avx512_hmax_epi16", "sse_hsum_ps", "avx_hsum_ps", "avx512_hsum_ps", "sse_hmax_ps", "sse_hmin_ps", "sse_any_gt_epu8", "sse_any_gt_epi16", "avx_any_gt_epi16", "sse_any_gt_ps", "sse_select_ps", "sse_rightshiftz_float", "sse_leftshiftz_float", "avx_rightshiftz_float", "avx_leftshiftz_float", "avx512_rightshiftz_float", "avx512_leftshiftz_float", "sse_rightshift_ps", "sse_leftshift_ps", "sse_rightshift_int8", "sse_rightshift_int16", "avx_rightshift_int8", "avx_rightshift_int16", "avx512_rightshift_int8", "avx512_rightshift_int16", "logf_negative", "logf_zero_subnormal", "logf_inf_nan", "expf_underflow", "expf_overflow", "expf_cutoffs_in_window", "expf_nan", "sum_eq_real", "dot_eq_real", "vmax_spec", "vmin_spec", "argmax_spec", "argmin_spec", "argmax_nil", "sortIncreasing_spec", "sortDecreasing_spec", "norm_of_sum_ne_zero", "norm_of_sum_zero", "entropy_eq", "cdf_spec", "validate_spec", "logSum_all_ninf", "logSum_spec", "logSum_of_max_pinf", "logNorm_spec", "relEntropyGo_spec", "isum_eq", "idot_eq", "log2Sum_spec", "rightshift_fill", "logSum_spec_F", "log2Sum_spec_F", "hmaxU_spec", "hmaxS_spec", "sse_hsum_ps_real", "avx_hsum_ps_real", "avx512_hsum_ps_real", "sse_hmax_ps_real", "sse_hmin_ps_real", "dot_rounding")]
+        "sse_hmax_epu8", "sse_hmax_epi8", "sse_hmax_epi16", "avx_hmax_epu8", "avx_hmax_epi8", "avx_hmax_epi16", "avx512_hmax_epu8", "avx512_hmax_epi8", "avx512_hmax_epi16", "sse_hsum_ps", "avx_hsum_ps", "avx512_hsum_ps", "sse_hmax_ps", "sse_hmin_ps", "sse_any_gt_epu8", "sse_any_gt_epi16", "avx_any_gt_epi16", "sse_any_gt_ps", "sse_select_ps", "sse_rightshiftz_float", "sse_leftshiftz_float", "avx_rightshiftz_float", "avx_leftshiftz_float", "avx512_rightshiftz_float", "avx512_leftshiftz_float", "sse_rightshift_ps", "sse_leftshift_ps", "sse_rightshift_int8", "sse_rightshift_int16", "avx_rightshift_int8", "avx_rightshift_int16", "avx512_rightshift_int8", "avx512_rightshift_int16", "logf_negative", "logf_zero_subnormal", "logf_inf_nan", "expf_underflow", "expf_overflow", "expf_cutoffs_in_window", "expf_nan", "sum_eq_real", "dot_eq_real", "vmax_spec", "vmin_spec", "argmax_spec", "argmin_spec", "argmax_nil", "sortIncreasing_spec", "sortDecreasing_spec", "norm_of_sum_ne_zero", "norm_of_sum_zero", "entropy_eq", "cdf_spec", "validate_spec", "logSum_all_ninf", "logSum_spec", "logSum_of_max_pinf", "logNorm_spec", "relEntropyGo_spec", "isum_eq", "idot_eq", "log2Sum_spec", "rightshift_fill", "logSum_spec_F", "log2Sum_spec_F", "hmaxU_spec", "hmaxS_spec", "sse_hsum_ps_real", "avx_hsum_ps_real", "avx512_hsum_ps_real", "sse_hmax_ps_real", "sse_hmin_ps_real", "dot_rounding", "kahan_rounding", "mat_cell_in_block", "mat_cell_inj", "mat_cell_surj")]
     claimed = True
     level_text = ("Theorems (Lean kernel): each of the 33 SSE/AVX/AVX-512 helper inlines, as regenerated from the headers of the working tree, equals the scalar "
                   "loop over its lanes for every lane pattern (hmax = fold max; any_gt = exists lane; select/shifts lane-wise with the documented fill; float "
@@ -151,7 +151,8 @@ class C20(Prop):
                    "float (F) routines: same model term at a binary32 instance with the sub-expressions the C source evaluates in double; the real-number theorems are about "
                    "the shared generic definitions (LogSum/Log2Sum bounds proved for both windows, 500 and 50)",
                    "integer (I/L) routines modelled on unbounded Int: signed overflow is undefined behaviour in C and the generators stay in range",
-                   "not modelled: Shuffle/Dump/Compare/W,B-Copy, esl_mat_* allocation routines (Create/GrowTo/Clone/Destroy), esl_avx/avx512 .c dump utilities"]
+                   "esl_mat_* : Create/Clone/GrowTo/Sizeof/Set/Scale/Copy/Max modelled as a flat block + row-pointer arithmetic (Vec/Mat.lean); allocation failure paths not modelled",
+                   "not modelled: Shuffle/Dump/Compare, esl_mat_WCopy/BCopy, esl_avx/avx512 .c dump utilities"]
     rule = ("cases = op batches: every intrinsic of the table x lane views x immediates; every helper with the maximum in each lane, each boundary "
             "value in each lane, dense random lanes; logf/expf stratified over every exponent x boundary mantissas + threshold neighbourhoods + random; "
             "vector routines over lengths 0..1000 with ties, signed zeros, infinities, -inf log entries, spreads of hundreds of log units; "
@@ -488,7 +489,7 @@ class C20(Prop):
             ops.append("vec op=%sDot x=- y=-" % T); ops.append("vec op=%sNorm x=-" % T); ops.append("vec op=%sEntropy x=-" % T)
             ops.append("vec op=%sValidate x=- s=%s" % (T, sb(T, 0.1))); ops.append("vec op=%sSortIncreasing x=-" % T)
         for T, k, lim in (("I", 4, 1000), ("L", 8, 2 ** 24)):
-            for n in lens[:12] + [rng.randrange(1, 500) for _ in range(4)]:
+            for n in lens[:12] + [1000] + [rng.randrange(2, 500) for _ in range(4)]:
                 for style in ("uni", "ties"):
                     v = [rng.randrange(-lim, lim) if style == "uni" else rng.randrange(-2, 3) for _ in range(n)]
                     w = [rng.randrange(-lim, lim) for _ in range(n)]
@@ -508,16 +509,89 @@ class C20(Prop):
                         ops.append("vec op=IReverse x=%s" % hv)
                         M = rng.choice([d for d in (1, 2, 3, 4, 5, 8) if n % d == 0])
                         ops.append("vec op=IMatMax m=%d x=%s" % (M, hv))
+                # full-range values for every routine whose C code cannot overflow on them (order / move routines): a comparator or an
+                # index computation that is only right inside a 2^31-wide window must show here
+                bits = 8 * k
+                lo, hi = -(1 << (bits - 1)), (1 << (bits - 1)) - 1
+                edge = [lo, hi, lo + 1, hi - 1, 0, 1, -1, 2, -2, 1 << 30, -(1 << 30), 2000000000, -2000000000]
+                if T == "L": edge += [1 << 31, -(1 << 31), (1 << 31) - 1, 1 << 32, -(1 << 32), 1 << 62, -(1 << 62), (1 << 32) + 5, 3]
+                for style in ("edges", "mixed", "fullrandom", "two"):
+                    if style == "edges": v = [rng.choice(edge) for _ in range(n)]
+                    elif style == "mixed": v = [rng.choice(edge) if rng.random() < 0.3 else rng.randrange(-50, 50) for _ in range(n)]
+                    elif style == "fullrandom": v = [rng.randrange(lo, hi + 1) for _ in range(n)]
+                    else:
+                        v = [rng.randrange(-5, 5) for _ in range(n)]
+                        a, b = rng.choice([(lo, hi), (-2000000000, 2000000000), (lo, 1), (0, 1 << (bits - 1 - (0 if T == "I" else 31))), (hi, -1)])
+                        a = max(lo, min(hi, a)); b = max(lo, min(hi, b))
+                        v[rng.randrange(n)] = a; v[rng.randrange(n)] = b
+                    w = [rng.randrange(lo, hi + 1) for _ in range(n)]
+                    hv = b"".join(int(x).to_bytes(k, "little", signed=True) for x in v).hex()
+                    hw = b"".join(int(x).to_bytes(k, "little", signed=True) for x in w).hex()
+                    for o in ("Max", "Min", "ArgMax", "ArgMin", "SortIncreasing", "SortDecreasing", "ReverseInPlace", "Copy"):
+                        ops.append("vec op=%s%s x=%s" % (T, o, hv))
+                    ops.append("vec op=%sSwap x=%s y=%s" % (T, hv, hw))
+                    ops.append("vec op=%sSet x=%s k=%d" % (T, hv, rng.choice([lo, hi, 0, -1])))
+                    if T == "I":
+                        M = rng.choice([d for d in (1, 2, 3, 4, 5, 8) if n % d == 0])
+                        ops.append("vec op=IMatMax m=%d x=%s" % (M, hv))
+        for n in (0, 1, 2, 7, 64, 255, rng.randrange(1, 600)):
+            ops.append("vec op=WCopy x=%s" % (bytes(rng.randrange(256) for _ in range(2 * n)).hex() or "-"))
+            ops.append("vec op=BCopy x=%s" % (bytes(rng.randrange(256) for _ in range(n)).hex() or "-"))
         rng.shuffle(ops)
         return [{"name": "vec%d" % i, "ops": ops[i:i + 30]} for i in range(0, len(ops), 30)]
 
+    # ---- matrices
+    def mat_cases(self, ctx):
+        rng = ctx.rng
+        ops = []
+        shapes = [(1, 1), (1, 7), (7, 1), (2, 2), (3, 5), (5, 3), (4, 4), (8, 16), (16, 8), (13, 17), (1, 100), (100, 1), (31, 33)]
+        shapes += [(rng.randrange(1, 40), rng.randrange(1, 40)) for _ in range(6)]
+        esz = {"D": 8, "F": 4, "I": 4, "C": 1}
+        for T in "DFIC":
+            for (M, N) in shapes:
+                if T == "D": x = hex_f64s([rng.uniform(-9, 9) for _ in range(M * N)])
+                elif T == "F": x = hex_f32s([rng.uniform(-9, 9) for _ in range(M * N)])
+                elif T == "I": x = b"".join(int(rng.randrange(-999, 999)).to_bytes(4, "little", signed=True) for _ in range(M * N)).hex()
+                else: x = bytes(rng.randrange(1, 127) for _ in range(M * N)).hex()
+                ops.append("mat op=%sSizeof m=%d n=%d" % (T, M, N))
+                ops.append("mat op=%sRows m=%d n=%d x=%s" % (T, M, N, x))
+                for (M2, N2) in ((M + rng.randrange(0, 5), N + rng.randrange(0, 5)), (M + 1, N), (M, N + 1), (M * 2, N * 2), (M, N)):
+                    ops.append("mat op=%sGrowTo m=%d n=%d m2=%d n2=%d x=%s" % (T, M, N, M2, N2, x))
+                if T != "C":
+                    ops.append("mat op=%sClone m=%d n=%d x=%s" % (T, M, N, x))
+                    ops.append("mat op=%sCopy m=%d n=%d x=%s" % (T, M, N, x))
+                    if T == "I": ops.append("mat op=ISet m=%d n=%d x=%s k=%d" % (M, N, x, rng.randrange(-5, 5)))
+                    else: ops.append("mat op=%sSet m=%d n=%d x=%s s=%s" % (T, M, N, x, ("%016x" % bits_of_f64(2.5)) if T == "D" else ("%08x" % bits_of_f32(-1.25))))
+        rng.shuffle(ops)
+        return [{"name": "mat%d" % i, "ops": ops[i:i + 40]} for i in range(0, len(ops), 40)]
+
+    def mat_check(self, kvs, line):
+        T, name = kvs["op"][0], kvs["op"][1:]
+        M, N = int(kvs.get("m", 1)), int(kvs.get("n", 1))
+        esz = {"D": 8, "F": 4, "I": 4, "C": 1}[T]
+        w = line.split()
+        if name == "Sizeof":
+            return None if w[1] == str(esz * M * N + 8 * M) else "%sSizeof(%d,%d) = %s" % (T, M, N, w[1])
+        x = kvs.get("x", "-")
+        if name in ("Rows", "Clone", "Copy"):
+            return None if w[1] == x else "esl_mat_%s%s (%dx%d): cells read through the row pointers differ from the cells written" % (T, name, M, N)
+        if name == "Set":
+            got = unhex(w[1])
+            return None if len(got) == esz * M * N and len(set(got[i:i + esz] for i in range(0, len(got), esz))) == 1 else "esl_mat_%sSet: not constant / wrong size" % T
+        if name == "GrowTo":
+            M2, N2 = int(kvs["m2"]), int(kvs["n2"])
+            keep = min(M * N, M2 * N2) * esz * 2
+            if w[1] != "kept=" + (x[:keep] or "-"): return "esl_mat_%sGrowTo: the first cells of the block were not preserved" % T
+            if w[2] != "rows=rowmajor": return "esl_mat_%sGrowTo (%dx%d -> %dx%d): row pointers do not tile the block in row-major order" % (T, M, N, M2, N2)
+        return None
+
     def cases(self, ctx):
-        out = self.intr_cases(ctx) + self.helper_cases(ctx) + self.logexp_cases(ctx) + self.vec_cases(ctx)
+        out = self.intr_cases(ctx) + self.helper_cases(ctx) + self.logexp_cases(ctx) + self.vec_cases(ctx) + self.mat_cases(ctx)
         st = {}
         for c in out:
             for op in c["ops"]:
                 w = op.split()
-                key = w[0] + ":" + (w[1].split("=")[1] if len(w) > 1 and w[0] in ("simd", "intr", "vec", "lane32") else "")
+                key = w[0] + ":" + (w[1].split("=")[1] if len(w) > 1 and w[0] in ("simd", "intr", "vec", "lane32", "mat") else "")
                 st[key] = st.get(key, 0) + 1
         self._dist = st
         return out
@@ -534,6 +608,8 @@ class C20(Prop):
         """specification of a vector routine evaluated exactly / in high precision on the implementation's output.
         Returns None or a message."""
         T, name = op[0], op[1:]
+        if T in "WB":
+            return None if line.split()[1:2] == [kvs.get("x", "-")] else "%s%s: output differs from input" % (T, name)
         if T in "IL":
             k = 4 if T == "I" else 8
             xb = unhex(kvs.get("x", "-"))
@@ -547,6 +623,11 @@ class C20(Prop):
             elif name == "Dot":
                 yb = unhex(kvs.get("y", "-")); y = [int.from_bytes(yb[i:i + k], "little", signed=True) for i in range(0, len(yb), k)]
                 exp = str(sum(a * b for a, b in zip(x, y)))
+            elif name in ("Set", "Copy", "Swap"):
+                c = int(kvs.get("k", "1"))
+                yb = unhex(kvs.get("y", "-")); y = [int.from_bytes(yb[i:i + k], "little", signed=True) for i in range(0, len(yb), k)]
+                o = [c] * len(x) if name == "Set" else x if name == "Copy" else y + x
+                exp = b"".join(int(v).to_bytes(k, "little", signed=True) for v in o).hex() or "-"
             elif name in ("Scale", "MatScale", "Increment", "Add", "AddScaled"):
                 c = int(kvs.get("k", "1"))
                 yb = unhex(kvs.get("y", "-")); y = [int.from_bytes(yb[i:i + k], "little", signed=True) for i in range(0, len(yb), k)]
@@ -748,6 +829,9 @@ class C20(Prop):
                 for z in range(4):
                     m = self.lane_judge(name, xin[z], res[z], ref[z])
                     if m: return Failure("monitor", "esl_sse_%s lane %d: %s" % (name, z, m))
+            elif name == "mat":
+                m = self.mat_check(kvs, l)
+                if m: return Failure("monitor", m + "  [%s]" % op[:120])
             elif name == "vec":
                 try:
                     m = self.vec_check(kvs["op"], kvs, l)
